@@ -11,13 +11,19 @@ EXPLANATION = (
     '_create_stabilization_step; deep history records the active descendants and shallow history the active children of the exited '
     'compound parent, both taken from a snapshot of the configuration copied before the exit loop starts; the save depends on nothing '
     'but the kinds of the exited state and of its history child and is a plain overwriting store keyed by the history state; restoration '
-    'reads memory.get(history, [default]), enters it sorted by (depth, name) and exits the history state. Decides the shape that '
+    'reads memory.get(history, [default]), enters it sorted by (depth, name) and exits the history state; the isinstance tests that tell deep from shallow history are exact (no concrete state class derives from a tested one). Decides the shape that '
     'save/restore rests on, not equality of restored and saved configurations over histories.')
 
 
 def check(run):
     run.guard(rules_save, run, 'C06')
     run.guard(rules_restore, run, 'C06')
+    # what is saved is cut out with descendants_for / children_for, what is restored is ordered by depth_for: a memoised query that survives an edit
+    # restores a child before its parent
+    from .c16 import rules_caches
+    run.guard(rules_caches, run, 'C06', '.6', ['Interpreter._create_stabilization_step', 'Interpreter._apply_step'])
+    from .common import rules_exact_kinds
+    run.guard(rules_exact_kinds, run, 'C06.5', ['Interpreter._apply_step', 'Interpreter._create_stabilization_step'], 2)
 
 
 def rules_save(run, P='C06', ids=('.1', '.2', '.3')):
